@@ -25,5 +25,9 @@ NextC == \E l \in Labels : NextL(l) /\ path' = Append(path, <<l.a, l.o, l.x, l.y
 SpecC == InitC /\ [][NextC]_<<vars, path>>
 Flags == [eo |-> StepExactlyOnce, bu |-> StepBudget, nk |-> StepNewestKept, no |-> StepNoOverwrite]
 Emit  == PrintT(ToString(<<path', Obs', Flags>>))     \* Flags: the truth of the C13 step formulas on this transition
-MonoNames == ev'.newts # 0 => ev'.newts > maxused   \* ACTION_CONSTRAINT: only roll-overs to strictly newer names
+(* the same, restricted to histories whose roll-overs go to strictly newer names (used to exhibit the deviations that
+   have nothing to do with timestamps on their own) *)
+MonoNames == ev'.newts # 0 => ev'.newts > maxused
+NextM == \E l \in Labels : NextL(l) /\ MonoNames /\ path' = Append(path, <<l.a, l.o, l.x, l.y>>)
+SpecM == InitC /\ [][NextM]_<<vars, path>>
 =============================================================================
